@@ -276,6 +276,13 @@ def oracle(script, out, segs=None):
                     return (i, "lastValid was written although the motion is valid (lv=%s lvs=%s)" % (kv["lv"], kv["lvs"])), stats
             elif n == 0:
                 stats["n0_invalid_excluded"] += 1   # fraction (-1)/0: excluded from the [0,1) clause (DESIGN 2.5)
+                # ... but the storage clauses still apply: the fraction and (when asked for) the state are written, and
+                # the state is the space's own interpolate at the reported fraction (s1 for the curve spaces: t <= 0)
+                if kv["lv"] == "untouched":
+                    return (i, "motion invalid (s1 == s2, end state invalid) but lastValid.second was not written"), stats
+                if op == "cm3" and kv["lvs"] != "eq":
+                    return (i, "s1 == s2 with an invalid end state: lastValid.first is not interpolate(s1,s2,lastValid.second) "
+                               "(lvs=%s): the returned last-valid state is not a state of the motion" % kv["lvs"]), stats
             else:
                 js = invalid_here[0]
                 if kv["lv"] == "untouched":
@@ -530,6 +537,60 @@ def gen_spaces(r, tier):
     return out
 
 
+def short_scripts(ck, hbin, r, tier):
+    """motions no longer than one resolution step (validSegmentCount <= 1, incl. s1 == s2) for EVERY validator, with the
+    end state invalid / valid, all call forms: the class where the sweep over interior points never runs and the
+    last-valid report has to come from somewhere else (a scratch state must not leak out).  Segment-count factor 1 so
+    that a positive distance below L really gives n = 1; the displacement is along the heading for the car-like
+    spaces (a sideways nudge costs a long manoeuvre)."""
+    out = []
+    confs = [("rn", "default"), ("so2", "default"), ("se2", "default"), ("cmpd", "default"), ("cmpd2", "default"),
+             ("dubins", "default"), ("dubinssym", "default"), ("rs", "default"), ("dubins", "discrete"), ("rs", "discrete"),
+             ("owen", "default"), ("vana", "default"), ("vanaowen", "default")]
+    for space, validator in confs:
+        frac = r.choice([0.01, 0.02, 0.05])
+        cfg = {"space": space, "validator": validator, "frac": frac, "lo": -5.0, "hi": 5.0, "dim": 3, "rho": r.choice([1.0, 0.5, 2.0])}
+        tree, nreals, nf, hinted = space_info(cfg)
+        cfg["f"] = [1] * nf
+        L = 10.0 * frac          # well below every space's longest valid segment here (extent >= pi, box side 10)
+        pairs = []
+        for p in range(10 if tier == "thorough" else 5):
+            if not hinted:
+                a = rnd_state(r, cfg, tree)
+                b = list(a) if p == 0 else near_state(r, cfg, tree, a, L * r.choice([0.01, 0.05, 0.1]))
+            else:
+                yaw = r.uniform(-math.pi + 0.1, math.pi - 0.1)
+                xy = [r.uniform(-4.0, 4.0), r.uniform(-4.0, 4.0)]
+                step = 0.0 if p == 0 else L * r.choice([0.02, 0.1, 0.3]) * (r.choice([1.0, -1.0]) if space == "rs" else 1.0)
+                mid = [] if nreals == 3 else [0.2] if nreals == 4 else [0.2, 0.0]       # z / z, pitch
+                a = xy + mid + [yaw]
+                b = [xy[0] + step * math.cos(yaw), xy[1] + step * math.sin(yaw)] + mid + [yaw]
+            pairs.append((a, b))
+        if hinted:
+            pre = [header(cfg)] + ["seg %s %s" % (st(a), st(b)) for a, b in pairs]
+            o, rc, err = run_harness(ck, hbin, pre)
+            if rc != 0 or o is None or len(o) != len(pairs):
+                out.append(("short-%s-%s" % (space, validator), pre, None))
+                continue
+            ns = [kvline(x) for x in o]
+        lines = [header(cfg)]
+        segs = {}
+        for k, (a, b) in enumerate(pairs):
+            if hinted:
+                n = int(ns[k]["n"])
+                segs["%s %s" % (st(a), st(b))] = (bits2f(ns[k]["dist"]), bits2f(ns[k]["L"]))
+                hint = None if space in ("dubins", "dubinssym", "rs") else n if space not in D3 else (n, int(ns[k].get("path", "1")))
+            else:
+                n = spec_seg(tree, cfg, a, b)
+                hint = None
+            ck.count("short-motion pairs with n=%s" % (n if n <= 1 else ">1"))
+            end = {n} if n >= 1 else {0}
+            for inv in (end, set(), end | {n + 3}):
+                lines += group(a, b, inv, hint=hint, forms=("cm2", "cm3", "cm3n"))
+        out.append(("short-%s-%s" % (space, validator), lines, segs if hinted else None))
+    return out
+
+
 def box_line(bounds):
     return "invalid box " + " ".join("%s %s" % (f2bits(lo), f2bits(hi)) for lo, hi in bounds)
 
@@ -693,7 +754,10 @@ def harness_env(script):
     # unchanged tree; not a C05 matter, see notes/C05.md): leak detection is off for the Owen scripts only.
     # (OwenStateSpace::getPath used to leak its scratch state when it found no path; fixed in /repo d075cf1a8, so leak
     # detection is on for every script again)
-    return None
+    # Freshly allocated memory (also inside libompl: ASan's allocator serves the whole process) is filled with 0xBE, so a
+    # validator that hands back an uninitialised scratch state returns the same recognisable garbage on every run; the
+    # caller's lastValid.first is pre-filled with the harness' own sentinel.
+    return {"ASAN_OPTIONS": "detect_leaks=1:abort_on_error=0:exitcode=99:malloc_fill_byte=190:max_malloc_fill_size=1048576"}
 
 
 def run_harness(ck, hbin, script):
@@ -1117,6 +1181,8 @@ def run(ck):
     for tag, s, segs in hinted_scripts(ck, hbin, r.fork("hinted"), ck.tier):
         jobs.append((tag, s, segs))
     for tag, s, segs in proj_scripts(ck, hbin, r.fork("proj"), ck.tier):
+        jobs.append((tag, s, segs))
+    for tag, s, segs in short_scripts(ck, hbin, r.fork("short"), ck.tier):
         jobs.append((tag, s, segs))
     tb_wrapper_check(ck, hbin)
     bad = 0
